@@ -140,7 +140,7 @@ func coreLetters(w *drv.World) []string {
 	if l := segmentLive(w, -1); len(l) > 1 && len(l) < len(w.M.Live) {
 		ls = append(ls, delLetter(l))
 	}
-	ls = append(ls, "R:", "R:rec", "R:chk", "RX:all", "G:0", "S")
+	ls = append(ls, "R:", "R:rec", "R:chk", "RX:all", "G:0", "S", "L")
 	return dedupe(ls)
 }
 
@@ -155,14 +155,14 @@ func tailLetters(w *drv.World) []string {
 			ls = append(ls, delLetter(l))
 		}
 	}
-	ls = append(ls, "R:", "R:rec", "R:chk", "RX:all", "S")
+	ls = append(ls, "R:", "R:rec", "R:chk", "RX:all", "S", "L")
 	return dedupe(ls)
 }
 
 func rollLetters(w *drv.World) []string {
 	ls := pubs(w, maxMsgs, 1, 2, 3)
 	ls = append(ls, singleDeletes(w)...)
-	ls = append(ls, "R:")
+	ls = append(ls, "R:", "L")
 	return ls
 }
 
@@ -231,7 +231,7 @@ func helperLetters(w *drv.World) []string {
 		}
 		ls = append(ls, "CC:1")
 	}
-	ls = append(ls, "G:0", "R:")
+	ls = append(ls, "G:0", "R:", "L")
 	return dedupe(ls)
 }
 
@@ -245,7 +245,7 @@ func collideLetters(w *drv.World) []string {
 		ls = append(ls, "P:4/1/u,5/0/u")
 	}
 	ls = append(ls, singleDeletes(w)...)
-	ls = append(ls, "R:", "RX:all", "G:0")
+	ls = append(ls, "R:", "RX:all", "G:0", "L")
 	return ls
 }
 
@@ -260,7 +260,7 @@ func timesLetters(w *drv.World) []string {
 	}
 	ls = append(ls, "P:")
 	ls = append(ls, singleDeletes(w)...)
-	ls = append(ls, "R:", "R:rec", "RX:all")
+	ls = append(ls, "R:", "R:rec", "RX:all", "L")
 	return ls
 }
 
@@ -269,6 +269,10 @@ func delLetters(w *drv.World) []string {
 	ls := pubs(w, 6, 1, 2)
 	ls = append(ls, singleDeletes(w)...)
 	ls = append(ls, "R:", "RX:all", "G:0", "L")
+	// mixed-version layouts: the storage size of a message depends on the version of its segment
+	if countKind(w, "R") < 2 {
+		ls = append(ls, "R:v1,nokeep", "R:v2,nokeep", "R:v1,keep", "R:v2,keep")
+	}
 	return ls
 }
 
@@ -336,7 +340,7 @@ func kvLetters(max int) func(w *drv.World) []string {
 			ls = append(ls, "P:0/0/u", "P:0/0/n")
 		}
 		ls = append(ls, singleDeletes(w)...)
-		ls = append(ls, "R:")
+		ls = append(ls, "R:", "L")
 		if countKind(w, "CU", "CD", "CC") < max {
 			for _, t := range w.TimeQueries() {
 				for _, md := range []string{"s", "m", "o"} {
@@ -360,7 +364,7 @@ func versionLetters(w *drv.World) []string {
 			}
 		}
 	}
-	ls = append(ls, "Mi:1", "Mi:2", "Mi:11", "Mi:22")
+	ls = append(ls, "Mi:1", "Mi:2", "Mi:11", "Mi:22", "L")
 	return ls
 }
 
@@ -496,6 +500,6 @@ func ixLetters(w *drv.World) []string {
 	if l := segmentLive(w, -1); len(l) > 1 {
 		ls = append(ls, delLetter(l))
 	}
-	ls = append(ls, "R:", "R:rec", "R:ro", "RX:all", "Mi:1", "Mi:2")
+	ls = append(ls, "R:", "R:rec", "R:ro", "RX:all", "Mi:1", "Mi:2", "L")
 	return dedupe(ls)
 }
